@@ -479,20 +479,44 @@ def do_check(pid, cfg, tier, seed):
         else:
             corr_problems.append("msgs.txt missing (extractor did not run)")
     known = load_known()
-    model_diffs, spec_diffs, known_hits = [], [], {}
+    known_hits = {}
     domain = cfg.get("spec_domain")
-    for (op, impl, model, spec) in results:
-        if domain is not None and not domain(op):
-            continue
-        key = classify(pid, cfg, op, impl, spec) if (impl != model or impl != spec) else None
-        if key and (pid, key) in known:
-            # a listed finding, identified by its key: reported as KNOWN-FINDING, not as a (model or spec) difference
-            known_hits.setdefault(key, (op, impl, spec))
-            continue
-        if impl != model:
-            model_diffs.append((op, impl, model, spec))
-        if spec is not None and spec != "-" and impl != spec:
-            spec_diffs.append((op, impl, model, spec))
+
+    def diffs(res):
+        md, sd = [], []
+        for (op, impl, model, spec) in res:
+            if domain is not None and not domain(op):
+                continue
+            key = classify(pid, cfg, op, impl, spec) if (impl != model or impl != spec) else None
+            if key and (pid, key) in known:
+                # a listed finding, identified by its key: reported as KNOWN-FINDING, not as a (model or spec) difference
+                known_hits.setdefault(key, (op, impl, spec))
+                continue
+            if impl != model:
+                md.append((op, impl, model, spec))
+            if spec is not None and spec != "-" and impl != spec:
+                sd.append((op, impl, model, spec))
+        return md, sd
+
+    model_diffs, spec_diffs = diffs(results)
+    not_reproduced = []
+    if cfg.get("confirm_group") and spec_diffs and okh:
+        # the verdicts of these groups are about schedules: a difference is reported only if running the same scenarios
+        # again shows one again (a defect of the code shows up again; a hiccup of the machine does not)
+        again = []
+        for (group, sizes) in cfg["groups"]:
+            n = sizes[tier] if lp["problems"] == [] else max(sizes[tier], sizes.get("search", sizes["thorough"]))
+            r, _, err = run_group(group, n, seed, tier if not lp["problems"] else "thorough",
+                                  preamble=cfg["preamble"]() if cfg.get("preamble") else None, keep_partial=bool(cfg.get("crash_signatures")))
+            again += r
+            if err and crash_key(cfg, err):
+                crashes.append((crash_key(cfg, err), group, seed, err))
+        md2, sd2 = diffs(again)
+        if sd2:
+            model_diffs, spec_diffs = md2, sd2
+        else:
+            not_reproduced = [d[0][:200] for d in spec_diffs[:5]]
+            model_diffs, spec_diffs = md2, []
     setup = setup_ops(results) + list(PREAMBLE)
     # observations classified by wall-clock time (reconnect periods, heartbeat spacing) can be disturbed by load: a
     # difference on such an op is reported only if it is still there when the scenario is run again, twice
@@ -571,7 +595,7 @@ def do_check(pid, cfg, tier, seed):
                   samples=[dict(op=r[0][:400], impl=r[1][:300], model=r[2][:300], spec=r[3]) for r in results[:3] + results[len(results)//2:len(results)//2+2]],
                   distribution=stats, model_diffs=len(model_diffs), spec_diffs=len(spec_diffs),
                   known_findings_hit=sorted(known_hits), partial=cfg.get("partial", []),
-                  timing_flakes_not_confirmed=flakes,
+                  timing_flakes_not_confirmed=flakes, differences_not_reproduced_on_rerun=not_reproduced,
                   tie_g=lp["gen"][-300:]),
               assumptions=cfg.get("assumptions", []), wall_s=round(time.time() - t0, 1),
               violations=1 if violation else 0)
